@@ -71,6 +71,7 @@ type TrzszFilter struct {
 	serverOut             io.Reader
 	options               TrzszOptions
 	transfer              atomic.Pointer[trzszTransfer]
+	inputMutex            sync.Mutex
 	zmodem                atomic.Pointer[zmodemTransfer]
 	progress              atomic.Pointer[textProgressBar]
 	promptPipe            atomic.Pointer[io.PipeWriter]
@@ -427,7 +428,7 @@ func (filter *TrzszFilter) downloadFiles(transfer *trzszTransfer) error {
 		return err
 	}
 
-	if !filter.transfer.CompareAndSwap(nil, transfer) {
+	if !filter.beginTransfer(transfer) {
 		return simpleTrzszError("Swap transfer failed")
 	}
 
@@ -463,7 +464,7 @@ func (filter *TrzszFilter) uploadFiles(transfer *trzszTransfer, directory bool) 
 		return err
 	}
 
-	if !filter.transfer.CompareAndSwap(nil, transfer) {
+	if !filter.beginTransfer(transfer) {
 		return simpleTrzszError("Swap transfer failed")
 	}
 
@@ -489,6 +490,14 @@ func (filter *TrzszFilter) uploadFiles(transfer *trzszTransfer, directory bool) 
 		return err
 	}
 	return transfer.clientExit(formatSavedFiles(remoteNames, ""))
+}
+
+// beginTransfer makes the transfer the owner of the line to the server. Typed input that sendInput has already
+// let through (it found no transfer yet) is written out first: it must not land between two protocol lines.
+func (filter *TrzszFilter) beginTransfer(transfer *trzszTransfer) bool {
+	filter.inputMutex.Lock()
+	defer filter.inputMutex.Unlock()
+	return filter.transfer.CompareAndSwap(nil, transfer)
 }
 
 func (filter *TrzszFilter) handleTrzsz() {
@@ -720,6 +729,8 @@ func (filter *TrzszFilter) sendInput(buf []byte, detectDragFile *atomic.Bool) {
 		filter.transformPromptInput(promptPipe, buf)
 		return
 	}
+	filter.inputMutex.Lock()
+	defer filter.inputMutex.Unlock()
 	if transfer := filter.transfer.Load(); transfer != nil {
 		if len(buf) == 1 && buf[0] == '\x03' || len(buf) > 14 && ctrlCRegexp.Match(buf) {
 			// `ctrl + c` to stop transferring files
